@@ -624,7 +624,11 @@ impl Read for SimSeekRead {
             .event(self.name, "read", buf.len() as u64, n as i64, self.pos);
         self.pos += n as u64;
         if self.virt.is_none() && (self.pos as usize) < self.data.len() {
-            self.cuts.borrow_mut().push(self.pos as usize);
+            // (positions where a read ended, for the reach probes; a bounded sample is enough)
+            let mut cuts = self.cuts.borrow_mut();
+            if cuts.len() < 1 << 20 {
+                cuts.push(self.pos as usize);
+            }
         }
         Ok(n)
     }
